@@ -413,3 +413,33 @@ Proof. vm_compute. reflexivity. Qed.
 (* the hypotheses of the every-stream theorems hold initially *)
 Example ex_wf : wf 4 (w_in ex_world) /\ eof_ok (w_in ex_world) (w_src ex_world).
 Proof. split; [apply wf_init|apply eof_ok_init]. Qed.
+
+(* ---- non-vacuity of tar_record_chunk_free / tar_header_chunk_free: ALL hypotheses on one instance (found missing by an
+   independent audit: ex_record above runs with fuel 20 < size + tar_rec) ---- *)
+(* ex_record in Properties_C12 runs with fuel 20, which does NOT meet the hypothesis
+   size + tar_rec <= fuel of tar_record_chunk_free; here all hypotheses hold *)
+Example ex_record_hyps :
+  0 < 4 /\ wf 4 (w_in ex_world) /\ eof_ok (w_in ex_world) (w_src ex_world) /\ benign ex_outs /\
+  3 <= s32_max /\ 3 + tar_rec <= N.of_nat 600 /\
+  let '(r, w', t, rest) := run 4 1024 (record_to_memory 600 3) ex_world ex_outs in
+  (r, pending (w_in w') (w_src w')) = (TData [1;2;3], []).
+Proof.
+  split; [reflexivity|]. split; [apply wf_init|]. split; [apply eof_ok_init|]. split; [exact ex_benign|].
+  split; [vm_compute; discriminate|]. split; [vm_compute; discriminate|]. vm_compute. reflexivity.
+Qed.
+
+(* tar_header_chunk_free has no example at all: 520 bytes of input, BUFSZ 64, chunked reads *)
+Definition big_src : list N := map N.of_nat (seq 0 520).
+Definition big_world : world :=
+  {| w_in := istate_init; w_src := big_src; w_out := w_out ex_world; w_file := w_file ex_world |}.
+Example ex_header_hyps :
+  0 < 64 /\ wf 64 (w_in big_world) /\ eof_ok (w_in big_world) (w_src big_world) /\ benign ex_outs /\
+  sizeof_tar_header_t <= N.of_nat 600 /\
+  let '(r, w', t, rest) := run 64 1024 (header_read 600) big_world ex_outs in
+  r = TData (takeN sizeof_tar_header_t big_src) /\
+  pending (w_in w') (w_src w') = dropN sizeof_tar_header_t big_src /\
+  lenN (pending (w_in w') (w_src w')) = 8.
+Proof.
+  split; [reflexivity|]. split; [apply wf_init|]. split; [apply eof_ok_init|]. split; [exact ex_benign|].
+  split; [vm_compute; discriminate|]. vm_compute. repeat split; reflexivity.
+Qed.
